@@ -497,17 +497,23 @@ func (c *Ctx) Describe(v BV) string {
 		if len(base) != len(v) {
 			return "", false
 		}
-		d := c.Sub(v, base)
-		if k, ok := d.IsConst(); ok {
-			if k == 0 {
-				return name, true
-			}
-			if k>>(uint(len(v))-1)&1 == 1 {
-				return fmt.Sprintf("%s-%d", name, (1<<uint(len(v)))-k), true
-			}
-			return fmt.Sprintf("%s+%d", name, k), true
+		// the offset is read off at one point and confirmed by building base+k
+		// (small) - never by subtracting two large functions
+		var mask uint64 = 1<<uint(len(v)) - 1
+		if len(v) >= 64 {
+			mask = ^uint64(0)
 		}
-		return "", false
+		k := (c.EvalBV(v, nil) - c.EvalBV(base, nil)) & mask
+		if !v.Equal(c.AddK(base, int64(k))) {
+			return "", false
+		}
+		if k == 0 {
+			return name, true
+		}
+		if k>>(uint(len(v))-1)&1 == 1 {
+			return fmt.Sprintf("%s-%d", name, (mask+1)-k), true
+		}
+		return fmt.Sprintf("%s+%d", name, k), true
 	}
 	if len(as) == 1 {
 		a := c.Atom(as[0].Name, as[0].Width)
